@@ -14,7 +14,7 @@ RULE = ("for every typed sensor of every runtime table of ET, DT (Modbus RTU and
         "random (quick), boundary + random contents for 1/4/6/8-byte fields, inside random surrounding block contents and "
         "for varied block start addresses; Sensor.read() on the real ProtocolResponse is compared with an independent per-type "
         "decoder, the read-log hook checks that only the sensor's own bytes are consumed, re-randomising all other bytes must "
-        "not change the value; an end-to-end part reads whole blocks from a simulated inverter; distinct = distinct "
+        "not change the value; an end-to-end part reads whole blocks from a simulated inverter (wrong MBAP lengths on Modbus/TCP; ids that name a sensor and a setting read singly in both orders; two DT objects of different phase count alive together); distinct = distinct "
         "(family, framing, sensor id, content class) tuples")
 ASSUMPTIONS = [
     "the tables of the library say WHICH typed sensor sits at which register; the interpretation per type name (size, "
